@@ -1545,7 +1545,11 @@ func (r *Runner) checkSpace() *Violation {
 		return violationf("space-equation", r.curItem, "allocatable %d + live %d + meta area %d + 2 header pages = %d, configured maximum is %d pages",
 			n, live, metaArea, n+live+metaArea+2, r.curMax)
 	}
+	// the configured maximum size (the option value; it need not be a multiple of the page size)
 	maxSize := int64(r.curMax) * int64(r.P.Cfg.PageSize)
+	if r.curMax == r.P.Cfg.MaxPages && r.Counters["resize"] == 0 {
+		maxSize = int64(r.P.Cfg.MaxSize())
+	}
 	if ext := r.Disk.MaxExtent(); ext > maxSize {
 		return violationf("extent", r.curItem, "file grew to %d bytes, maximum size is %d", ext, maxSize)
 	}
